@@ -49,37 +49,86 @@ def run(run):
     defining = [v["name"] for v in defadt["variants"] if any(f["name"] == "var" for f in v["fields"])]
     run.floor("defining Def variants", len(defining), 2)
 
-    def gens(fn, adt, variant, field, scrut_var=None):
-        """bindings of the slot in fn whose input_vars() are inserted into a set"""
+    def local_callees(fn, depth=2, _seen=None):
+        """crate-local functions called from fn (transitively to `depth`), with the call node that enters each"""
+        seen = _seen if _seen is not None else {fn["path"]}
         out = []
+        for n in T.walk_fn(F, fn):
+            if n.get("k") == "Call":
+                g = F.by_path.get(n.get("r") or "") or F.by_path.get(n.get("f") or "")
+                if g is not None and g.get("dk") in ("Fn", "AssocFn") and g["path"] not in seen and sum(1 for _ in T.walk(g["body"])) < 400:
+                    seen.add(g["path"])
+                    out.append((g, n))
+                    if depth > 1:
+                        out.extend(local_callees(g, depth - 1, seen))
+        return out
+
+    def feeds_set(body_fn, call):
+        """the input_vars() call is the iterable of a for loop that inserts, or an argument of extend/append/union/insert"""
+        for (node, pat, it, body) in T.for_loops(body_fn["body"]):
+            if any(x is call for x in T.walk(it)) and any(T.is_call(x, ("insert", "extend")) for x in T.walk(body)):
+                return True
+        for x in T.walk(body_fn["body"]):
+            if T.is_call(x, ("extend", "append", "union", "insert", "extend_from_slice")) and any(y is call for y in T.walk(x)):
+                return True
+            if T.is_call(x, ("for_each",)) and any(y is call for y in T.walk(x)):
+                return True
+        return False
+
+    def gens(fn, adt, variant, field, scrut_var=None):
+        """verdict for 'the input variables of slot (variant, field) are made alive by fn':
+        ('gen', sinks) | ('nogen', reason) | ('unknown', reason)"""
+        from .lib import mayflow as MF
+        binds = []
         for (lid, name, scrut, owner) in SL.slot_bindings(F, fn, adt, variant, field):
             if scrut_var is not None:
                 if scrut is None:
                     continue
-                sy = S.Sym(F)
-                st = sy.term(scrut)
-                if not mentions_var(st, scrut_var):
+                if not mentions_var(S.Sym(F).term(scrut), scrut_var):
                     continue
-            for call in SL.used_as_receiver_of(F, fn, lid, ("input_vars",)):
-                # the call must be the iterable of a for loop (or an extend/insert argument) whose body inserts
-                ok = False
-                for (node, pat, it, body) in T.for_loops(fn["body"]) + [fl for c in F.closures(fn) for fl in T.for_loops(c["body"])]:
-                    if any(x is call for x in T.walk(it)) and any(T.is_call(x, ("insert", "extend")) for x in T.walk(body)):
-                        ok = True
-                for x in T.walk_fn(F, fn):
-                    if T.is_call(x, ("extend", "append", "union")) and any(y is call for y in T.walk(x)):
-                        ok = True
-                if ok:
-                    out.append((lid, name, call))
-        return out
+            binds.append((fn, lid))
+        for (g, call) in local_callees(fn):
+            if scrut_var is not None and not any(x.get("k") in ("Var", "Upvar") and x.get("n") == scrut_var for a in call.get("a", []) for x in T.walk(a)):
+                continue
+            for (lid, name, scrut, owner) in SL.slot_bindings(F, g, adt, variant, field):
+                binds.append((g, lid))
+        if not binds:
+            # is the enum taken apart at all here? then this slot is simply not looked at
+            looked = any(True for g in [fn] + [c for c, _ in local_callees(fn)] for pat, scrut, owner in SL.fn_patterns(F, g) for v in [vv["name"] for vv in F.adt(adt.split("::")[-1] if "::" not in adt else adt)["variants"]] for _ in SL.variant_subpatterns(pat, adt, v))
+            if looked:
+                return ("nogen", "the slot is never bound")
+            # the enum is not taken apart here: can the result depend on the term at all?
+            start = set()
+            for p_ in fn["params"]:
+                if p_.get("p"):
+                    for (i, n_, _pth) in T.pat_bindings(p_["p"]):
+                        if (scrut_var is not None and n_ == scrut_var) or (scrut_var is None and adt.split("::")[-1] in (F.tyi(p_["p"]["t"]) if isinstance(p_["p"].get("t"), int) else "")):
+                            start.add(i)
+            if start:
+                mf0 = MF.MayFlow(F)
+                mf0.run(fn, start)
+                if not mf0.uses(lambda n: True):
+                    return ("nogen", "the term is not inspected at all")
+            return ("unknown", "the enum is not destructured in this function")
+        mf = MF.MayFlow(F)
+        for g, lid in binds:
+            mf.run(g, {lid})
+        sinks = [(gp, b, n) for (gp, b, n) in mf.uses(lambda n: n.get("n") == "input_vars") if feeds_set(b, n)]
+        if sinks:
+            return ("gen", sinks)
+        return ("nogen", "no input_vars() of a value derived from the slot reaches an insert/extend")
 
     # ------------------------------------------------------------------ R1
     def r1():
         f_def = F.fn("update_alive_vars_by_def", mod="alive_vars_computation")
         for (v, f) in def_slots:
-            g = gens(f_def, "def::Def", v, f)
-            run.check("R1", "update_alive_vars_by_def|Def::%s.%s" % (v, f), bool(g),
-                      "the backward transfer for definitions does not make the input variables of Def::%s.%s alive: a variable read only there is treated as dead and its assignment is deleted" % (v, f), F.loc(f_def["body"]))
+            verdict, why = gens(f_def, "def::Def", v, f)
+            key = "update_alive_vars_by_def|Def::%s.%s" % (v, f)
+            if verdict == "unknown":
+                run.undecided("R1", key, why, F.loc(f_def["body"]))
+            else:
+                run.check("R1", key, verdict == "gen",
+                          "the backward transfer for definitions does not make the input variables of Def::%s.%s alive (%s): a variable read only there is treated as dead and its assignment is deleted" % (v, f, why if verdict != "gen" else ""), F.loc(f_def["body"]))
         ctx = "alive_vars_computation"
         f_js = F.fn("update_jumpsite", mod=ctx)
         f_cs = F.fn("update_callsite", mod=ctx)
@@ -96,9 +145,13 @@ def run(run):
                 run.violated("R1", "jmp-slot-unknown|Jmp::%s.%s" % (v, f), "Jmp::%s.%s is a new Expression slot that no liveness rule is known for" % (v, f))
                 continue
             for fn, scrut_var in table[(v, f)]:
-                g = gens(fn, "jmp::Jmp", v, f, scrut_var)
-                run.check("R1", "%s|Jmp::%s.%s%s" % (fn["name"], v, f, ("|via " + scrut_var) if scrut_var else ""), bool(g),
-                          "%s does not make the input variables of Jmp::%s.%s%s alive" % (fn["name"], v, f, (" of `%s`" % scrut_var) if scrut_var else ""), F.loc(fn["body"]))
+                verdict, why = gens(fn, "jmp::Jmp", v, f, scrut_var)
+                key = "%s|Jmp::%s.%s%s" % (fn["name"], v, f, ("|via " + scrut_var) if scrut_var else "")
+                if verdict == "unknown":
+                    run.undecided("R1", key, why, F.loc(fn["body"]))
+                else:
+                    run.check("R1", key, verdict == "gen",
+                              "%s does not make the input variables of Jmp::%s.%s%s alive (%s)" % (fn["name"], v, f, (" of `%s`" % scrut_var) if scrut_var else "", why if verdict != "gen" else ""), F.loc(fn["body"]))
         # kill before gen in the defining arms
         ms = T.find_matches(f_def["body"], adt_suffix="def::Def")
         if not ms:
@@ -115,6 +168,10 @@ def run(run):
                     order.append("kill")
                 elif T.is_call(n, ("insert", "extend", "append", "extend_from_slice")):
                     order.append("gen")
+                elif n.get("k") == "Call":
+                    g = F.by_path.get(n.get("r") or "") or F.by_path.get(n.get("f") or "")
+                    if g is not None and g.get("dk") in ("Fn", "AssocFn") and any(T.is_call(x, ("insert", "extend", "append")) for x in T.walk_deep(F, g["body"], 1)):
+                        order.append("gen")
             if "kill" not in order:
                 run.violated("R1", key, "the defined variable of Def::%s is not removed from the alive set" % v, F.loc(arms[0]["b"]))
             elif "gen" in order and order.index("gen") < order.index("kill"):
@@ -126,6 +183,7 @@ def run(run):
 
     # ------------------------------------------------------------------ R2
     def r2():
+        from .lib import peval as PE
         fn = F.fn("remove_dead_var_assignments_of_block", mod="dead_variable_elimination")
         site = F.loc(fn["body"])
         loops = T.for_loops(fn["body"])
@@ -137,45 +195,50 @@ def run(run):
         sy.term(fn["body"], env)
         itt = sy.ev(it, env)
         run.check("R2", "iterates-backwards", any(is_call(x, "rev") for x in S.subterms(itt)), "liveness is a backward analysis: the defs of the block must be visited in reverse order; iterable is %s" % fmt(itt), F.loc(it))
-        ms = T.find_matches(body, adt_suffix="def::Def")
-        if not ms:
-            raise T.AnchorMissing("no match over Def in remove_dead_var_assignments_of_block")
-        m = ms[0]
-        nskip = 0
-        for arm in m["arms"]:
-            keeps = any(T.is_call(x, "push") for x in T.walk(arm["b"]))
-            if keeps:
-                continue
-            nskip += 1
-            names = T.pat_variant_names(arm["p"])
-            key = "skip-arm|%s" % "|".join(sorted(names))
-            if not names <= {"Assign"}:
-                run.violated("R2", key, "definitions of kind %s are dropped; only register assignments are free of observable effects (loads and stores are memory accesses)" % sorted(names), F.loc(arm["b"]))
-                continue
-            if "g" not in arm:
-                run.violated("R2", key, "assignments are dropped unconditionally", F.loc(arm["b"]))
-                continue
-            g = sy.ev(arm["g"], env)
-            # !alive.contains(var)
-            good = g[0] == "not" and is_call(g[1], "contains") and len(g[1][2]) == 2 and g[1][2][1][0] == "field" and g[1][2][1][2] == "Assign.var"
-            if good:
-                run.holds("R2", key, "guard %s" % fmt(g), F.loc(arm["g"]))
-            elif is_call(g, "contains"):
-                run.violated("R2", key, "assignments are dropped when the variable IS alive: %s" % fmt(g), F.loc(arm["g"]))
-            else:
-                run.undecided("R2", key, "guard outside vocabulary: %s" % fmt(g), F.loc(arm["g"]))
-        run.check("R2", "has-skip-arm", nskip >= 1, "no arm drops a definition (the pass would do nothing) -- anchor changed", site)
-        # liveness updated for every def: call is a direct statement of the loop body, no early exits
-        b = T.peel(body)
-        direct = [s for s in (b.get("ss", []) + ([b["e"]] if "e" in b else [])) if T.is_call(T.peel(s), "update_alive_vars_by_def")] if b.get("k") == "Block" else []
-        exits = [x for x in T.walk(body) if x.get("k") in ("Continue", "Break", "Return")]
-        run.check("R2", "liveness-updated-for-every-def", bool(direct) and not exits, "update_alive_vars_by_def must run for every definition of the block (unconditional statement of the loop body, no continue/break)", F.loc(body))
-        # and it comes after the decision for that def
-        if direct:
-            stmts = b["ss"] + ([b["e"]] if "e" in b else [])
-            idx_upd = [i for i, s in enumerate(stmts) if T.is_call(T.peel(s), "update_alive_vars_by_def")][0]
-            idx_match = [i for i, s in enumerate(stmts) if any(x is m for x in T.walk(s))]
-            run.check("R2", "decision-uses-liveness-after-def", bool(idx_match) and idx_match[0] < idx_upd, "the keep/drop decision for a def must use the alive set *after* that def (decide first, then update)", F.loc(body))
+        variants = [v["name"] for v in defadt["variants"]]
+        KEEP = ("push", "push_back", "push_front", "insert", "extend")
+
+        def scenario(variant, alive):
+            hits = {"def": 0, "alive": 0}
+
+            def assume(n):
+                k = n.get("k")
+                ty = (F.ty(n) or "").replace("&", "").replace("mut ", "").strip()
+                if ty.endswith("def::Def") and k in ("Field", "Deref", "Borrow", "Var", "Call") and k != "Var":
+                    hits["def"] += 1
+                    return ("enum", variant)
+                if k == "Call" and n.get("n") == "contains" and n.get("a") and "Variable" in (F.ty(n["a"][0]) or "") and "Set" in (F.ty(n["a"][0]) or ""):
+                    hits["alive"] += 1
+                    return ("bool", alive)
+                return None
+            nodes = PE.Spec(F, assume=assume).reach(body, {})
+            keeps = [x for x in nodes if T.is_call(x, KEEP)]
+            upd = [i for i, x in enumerate(nodes) if T.is_call(x, "update_alive_vars_by_def")]
+            tests = [i for i, x in enumerate(nodes) if T.is_call(x, "contains") and x.get("a") and "Variable" in (F.ty(x["a"][0]) or "")]
+            exits = [x for x in nodes if x.get("k") in ("Continue", "Break", "Return")]
+            return keeps, upd, tests, exits, hits
+
+        any_keep = False
+        for v in variants:
+            for alive in (True, False):
+                keeps, upd, tests, exits, hits = scenario(v, alive)
+                if keeps:
+                    any_keep = True
+                key = "keep|%s|%s" % (v, "alive" if alive else "dead")
+                if not hits["def"]:
+                    run.undecided("R2", key, "no dispatch on the kind of definition found in the loop body", F.loc(body))
+                    continue
+                should_keep = not (v == "Assign" and not alive)
+                if should_keep:
+                    why = "a Def::%s %sis dropped; only assignments to variables that are not alive are free of observable effects (loads and stores are memory accesses)" % (v, "whose variable is alive " if v == "Assign" else "")
+                    run.check("R2", key, bool(keeps), why, F.loc(body))
+                else:
+                    run.check("R2", key, not keeps, "an assignment to a variable that is not alive is kept: the pass removes nothing", F.loc(body))
+                run.check("R2", "liveness-updated|%s|%s" % (v, "alive" if alive else "dead"), len(upd) >= 1 and not [e for e in exits], "update_alive_vars_by_def must run for every definition of the block (on every path through the loop body, no continue/break)", F.loc(body))
+                if v == "Assign" and upd and tests:
+                    run.check("R2", "decision-uses-liveness-after-def|%s" % ("alive" if alive else "dead"), min(tests) < min(upd), "the keep/drop decision for a def must use the alive set *after* that def (decide first, then update)", F.loc(body))
+        if not any_keep:
+            run.undecided("R2", "keep", "no scenario keeps a definition through push/insert/extend: the rebuilding idiom is outside the vocabulary", site)
 
     run.guarded("R2", r2)
 
@@ -359,7 +422,7 @@ def run(run):
                     continue
                 n += 1
                 analyse_arm(fn, arms[0], v, label)
-        run.floor("defining arms analysed", n, 4)
+        run.floor("defining arms analysed", n, 2)
         # reset at calls and returns
         for name in ("update_call_stub", "update_return"):
             fn = F.fn(name, mod="analysis::expression_propagation")
@@ -407,7 +470,7 @@ def run(run):
                         free = [x for x in S.subterms(t3) if isinstance(x, tuple) and x and x[0] == "var"]
                         precond = any(is_call(x, "get_block_precondition_after_defs") for x in S.subterms(t3))
                         run.check("R4", key, not free and not precond, "the return site of a call is retargeted using known branch conditions (%s); the callee may have changed the registers the condition reads" % fmt(t3), F.loc(c))
-        run.floor("find_target_for_retargetable_jump call sites", ncalls, 4)
+        run.floor("find_target_for_retargetable_jump call sites", ncalls, 2)
 
         # (b) precondition dropped when any defining variant writes an input
         f_pre = F.fn("get_block_precondition_after_defs", mod=mod)
